@@ -1662,10 +1662,12 @@ func (s *Server) loadSubscriptions(v []storage.Subscription) {
 			NoLocal:           sub.NoLocal,
 			Identifier:        sub.Identifier,
 		}
+		cl, ok := s.Clients.Get(sub.Client)
+		if !ok {
+			continue // the session was not restored (clean, expired or deleted): its subscriptions must not come back
+		}
 		if s.Topics.Subscribe(sub.Client, sb) {
-			if cl, ok := s.Clients.Get(sub.Client); ok {
-				cl.State.Subscriptions.Add(sub.Filter, sb)
-			}
+			cl.State.Subscriptions.Add(sub.Filter, sb)
 		}
 	}
 }
